@@ -137,7 +137,7 @@ TraceNext ==
                               ELSE IF ev.op = "mutate" THEN "C08:mutating-returned-values-leaves-answers-as-fresh"
                               ELSE "C08:queries-leave-answers-as-fresh",
                          poked' = {} => ev.rest = "same", [step |-> l, op |-> ev.op, arg |-> ev.arg]) >>)
-             IN IF ok THEN l' = l + 1 /\ (l + 1 <= Len(Traces[tid]) \/ Verdict(tid, TRUE))
+             IN IF ok THEN l' = l + 1 /\ (IF l + 1 <= Len(Traces[tid]) THEN TRUE ELSE Verdict(tid, TRUE))
                 ELSE l' = Len(Traces[tid]) + 2 /\ Verdict(tid, FALSE)
 
 Next == IF EmitMode = "trace" THEN TraceNext ELSE GenNext
